@@ -238,23 +238,9 @@ Fixpoint calm_items (b : dblock) {struct b} : bool :=
   | _ => true
   end.
 
-(* class "code span in a table cell" (F6): the table writer is fed a code *block* for it *)
-Fixpoint has_code_inline (i : inline) : bool :=
-  let fix go (l : list inline) : bool := match l with [] => false | x :: r => has_code_inline x || go r end in
-  match i with
-  | Code _ => true
-  | Emph l | Strong l | Strike l | Link _ _ _ l | Image _ _ l => go l
-  | _ => false
-  end.
-Fixpoint has_table (b : dblock) {struct b} : bool :=
-  let fix go (l : list dblock) : bool := match l with [] => false | x :: r => has_table x || go r end in
-  let fix goi (l : list (list dblock)) : bool := match l with [] => false | x :: r => go x || goi r end in
-  match b with
-  | DTable _ h _ rows => existsb (existsb has_code_inline) h || existsb (existsb (existsb has_code_inline)) rows
-  | DQuote _ bs => go bs
-  | DOList its | DBList its => goi its
-  | _ => false
-  end.
+(* (the former class 4 "code span in a table cell", F-TABLECODE, is repaired: the table writer
+   is fed the inline code event, markdown/writer.rs:154-156; a table holding a code span is an
+   input like any other) *)
 
 Fixpoint max_heading_depth (s : list sk) : nat :=
   length (levels_of s).
@@ -293,8 +279,7 @@ Definition p_identity (c : libcase) (o : note_obs) : bool :=
 Definition note_classes (c : libcase) (o : note_obs) : list N :=
   match note_blocks c (no_key o) with
   | Some bs =>
-      flag 1 (inert_blocks bs) ++ flag 2 (forallb plain_items bs) ++ flag 3 (forallb calm_items bs) ++
-      flag 4 (negb (existsb has_table bs))
+      flag 1 (inert_blocks bs) ++ flag 2 (forallb plain_items bs) ++ flag 3 (forallb calm_items bs)
   | None => [9%N]
   end.
 
